@@ -221,6 +221,7 @@ func (s *stepper) build(args map[string]any, gate string) (*genBatch, arrow.Reco
 		est := vgirpc.VerifEstimateSerializedSize(b0)
 		b0.Release()
 		// move rows towards `want` top-level buffer bytes, staying inside the bracket
+		asRows := false
 		adjust := func(want int, tooMany bool) bool {
 			if rw != "many" {
 				return false
@@ -233,11 +234,14 @@ func (s *stepper) build(args map[string]any, gate string) (*genBatch, arrow.Reco
 			if hiR-loR <= 1 {
 				return false
 			}
-			per := float64(buf) / float64(max(rows, 1))
-			if per < 1 {
-				per = 1
+			nr := want
+			if !asRows {
+				per := float64(buf) / float64(max(rows, 1))
+				if per < 1 {
+					per = 1
+				}
+				nr = rows + int(float64(want-buf)/per)
 			}
-			nr := rows + int(float64(want-buf)/per)
 			if nr >= hiR || nr <= loR {
 				if hiR < 1<<30 {
 					nr = (loR + hiR) / 2
@@ -262,7 +266,8 @@ func (s *stepper) build(args map[string]any, gate string) (*genBatch, arrow.Reco
 			if ex == 1 {
 				retry = adjust(aimEx1, true)
 			} else {
-				retry = adjust(buf*6/10, true)
+				asRows = true
+				retry = adjust(rows*6/10, true)
 			}
 		case ex == 0 && !wantBelow && est > target:
 			lastErr = fmt.Sprintf("estimate %d > target %d", est, target)
